@@ -330,11 +330,6 @@ def clause3_state(ctx, P):
                 k = atom[2][2][1][1] & 0xFFFFFFFF
                 if bin(k).count("1") > 8:
                     errmask = k
-    okr = reg is not None and errmask is not None and ((reg & 0xFFFFFFFF) & errmask & ~ET) == 0
-    ctx.ob("C09.3 R-PAIR", add, "registered-bits-are-data-bits", okr,
-           "connections are registered for readiness bits 0x%x, of which 0x%x are treated as an ERROR by the dispatcher: input that "
-           "arrives together with such a bit (e.g. data + half-close in one readiness report) is discarded instead of processed"
-           % ((reg or 0) & 0xFFFFFFFF, ((reg or 0) & 0xFFFFFFFF) & (errmask or 0) & ~ET) if not okr else "registered bits are IN|OUT|ET only")
     # input that is reported together with a hang-up or an error is still input: on every path of the dispatcher to the error
     # callback, the readable bit has been found clear or the read callback has run first.  (EPOLLHUP and EPOLLERR are reported
     # whether registered or not: a peer of the local socket that sends its last message and closes is seen as IN|HUP when both
@@ -366,6 +361,16 @@ def clause3_state(ctx, P):
            "handle_events() calls the error callback of a connection on a path that has neither found EPOLLIN clear nor run the read "
            "callback: a last message that is reported together with the peer's hang-up (EPOLLIN|EPOLLHUP in one entry) is discarded, "
            "while the same bytes are processed when the two are reported one after the other", witness=badv.witness() if badv else None)
+    # registering for a bit that the dispatcher treats as an error (EPOLLRDHUP, say) loses input only if the dispatcher does not
+    # read first: with the order rule above discharged, such a registration changes nothing that a peer can observe
+    order_ok = badv is None and nerr > 0
+    okr = reg is not None and errmask is not None and (((reg & 0xFFFFFFFF) & errmask & ~ET) == 0 or order_ok)
+    ctx.ob("C09.3 R-PAIR", add, "registered-bits-are-data-bits", okr,
+           "connections are registered for readiness bits 0x%x, of which 0x%x are treated as an ERROR by the dispatcher, which does not "
+           "read before it handles an error: input that arrives together with such a bit (e.g. data + half-close in one readiness "
+           "report) is discarded instead of processed"
+           % ((reg or 0) & 0xFFFFFFFF, ((reg or 0) & 0xFFFFFFFF) & (errmask or 0) & ~ET) if not okr else
+           "registered bits are data bits, or the dispatcher reads before it handles an error")
     ctx.floor("C09.3 R-EFFECT", 5)
 
 
